@@ -629,7 +629,13 @@ impl Open for VirtualSystem {
         flags: EnumSet<OpenFlag>,
         mode: Mode,
     ) -> impl Future<Output = Result<Fd>> + use<> {
-        let resolution = self.resolve_file(path, access, flags, mode);
+        // Fail before creating or truncating the file if no file descriptor
+        // is available.
+        let resolution = if self.current_process().has_unused_fd() {
+            self.resolve_file(path, access, flags, mode)
+        } else {
+            Err(Errno::EMFILE)
+        };
         let system = self.clone();
 
         async move {
